@@ -19,6 +19,8 @@ TIE_A = [f"code:fuzzylite.activation.{c}.activate"
          for c in ("General", "First", "Last", "Highest", "Lowest", "Proportional", "Threshold")]
 TIE_A += ["code:fuzzylite.rule.Rule.deactivate", "code:fuzzylite.rule.Rule.activate_with", "code:fuzzylite.rule.Rule.trigger",
          "code:fuzzylite.rule.Rule.is_loaded"]
+TIE_A += ["code:fuzzylite.rule.RuleBlock.activate", "code:fuzzylite.activation.Activation.assert_is_not_vector",
+          "code:fuzzylite.activation.Threshold.Comparator.operator.fget"]
 RULE = ("rule blocks of 1-8 rules `if in_i is x then ...` over Ramp(0,1) inputs (degree = weight x input value, exact), run through "
         "RuleBlock.activate of real engines; 7 methods x n in -1..rules+1 x thresholds on/off the degrees x 6 comparators; degree "
         "vectors over {0, 1/4, 1/2, 3/4} exhaustively for <= 4 rules (quick) / <= 6 (thorough: pool of 3) plus random blocks of "
